@@ -25,6 +25,9 @@ pub fn nq<T: Term>(term: T, buffer: &mut String) {
                     '\x08' => buffer.push_str("\\b"),
                     '\x0c' => buffer.push_str("\\f"),
                     '\x7f' => buffer.push_str("\\u007F"),
+                    // not matching the Char production of XML 1.1
+                    '\u{FFFE}' => buffer.push_str("\\uFFFE"),
+                    '\u{FFFF}' => buffer.push_str("\\uFFFF"),
                     c if c <= '\x1f' => buffer.push_str(&format!("\\u{:04X}", c as u8)),
                     _ => buffer.push(c),
                 }
